@@ -56,13 +56,16 @@ HOLDING_HARNESSES = [
 RESTARTCHAIN = {"id": "restart-chain", "func": "VerifRestartChain", "pkg": NODE, "pkgname": "node", "load": ["./node"],
              "params": {"quick": {}, "thorough": {}}, "must_cover": ["restarted", "no-restart"], "max_witness_replays": 4}
 SYNCBLOCKFAULT = {"id": "syncblock-fault", "func": "VerifSyncBlockFault", "pkg": NODE, "pkgname": "node", "load": ["./node"],
-             "params": {"quick": {}, "thorough": {}}, "must_cover": ["reference-applied", "fault-failed-block", "fault-ended-process"], "max_witness_replays": 4}
+             "params": {"quick": {}, "thorough": {}}, "must_cover": ["reference-applied", "fault-failed-block"], "max_witness_replays": 4}
 APIREADS = {"id": "api-reads", "func": "VerifAPIReads", "pkg": "srv", "pkgname": "srv", "load": ["./srv"],
              "params": {"quick": {}, "thorough": {}}, "must_cover": ["asked"], "max_witness_replays": 6}
 MULTIFETCH = {"id": "multifetch", "func": "VerifMultiFetch", "pkg": NODE, "pkgname": "node", "load": ["./node"],
              "params": {"quick": {"maxentries": 3}, "thorough": {"maxentries": 4}},
              "must_cover": ["all-fetched", "entry-request-failed", "eblock-request-failed"], "max_witness_replays": 4,
              "replay_mode": "order", "native_repeat": 40}
+MULTIFETCHFULL = {"id": "multifetch-full", "func": "VerifMultiFetch", "pkg": NODE, "pkgname": "node", "load": ["./node"],
+             "params": {"quick": {"many": 48, "hang_seconds": 20}, "thorough": {"many": 150, "hang_seconds": 20}},
+             "must_cover": ["all-fetched"], "max_witness_replays": 1}
 HOLDING_BOUNDS = "holding pass (SyncBank + ApplyTransactionBatchesInHolding + recordPegnetRequests) at one executing height per era (bank-limited per arrival height / V4 pooled bank / 2.0 / PIP-10), 1-2 blocks without rates before it, 1 held conversion (pUSD->pXBT or pUSD->PEG; amounts, balances, rates of both blocks symbolic) or 2 held conversions at rates 1:1, arrival heights inside and just outside the window"
 HOLDING_ASSUMPTIONS = [
     "held batches are single conversions put into holding by the real ApplyTransactionBlock in earlier committed blocks; multi-transaction batches with a PEG request in the bank era (known legacy findings D8/D15, DESIGN §8) are outside this harness",
@@ -365,12 +368,12 @@ PROPS = {
     },
     "C08": {
         "asserts": ["C08.", "uncaught-panic"],
-        "harnesses": TXBLOCK_HARNESSES + [BATCH_HARNESSES[1], BATCH_HARNESSES[3]] + HOLDING_HARNESSES + [GRADEGLUE, SYNCBLOCK, MULTIFETCH] + [
+        "harnesses": TXBLOCK_HARNESSES + [BATCH_HARNESSES[1], BATCH_HARNESSES[3]] + HOLDING_HARNESSES + [GRADEGLUE, SYNCBLOCK, MULTIFETCH, MULTIFETCHFULL] + [
             {"id": "snapshot-live", "func": "VerifSnapshot", "pkg": NODE, "pkgname": "node", "load": ["./node"],
              "params": {"quick": {"both": 2, "extras": 1, "assets": 1}, "thorough": {"both": 2, "extras": 1, "assets": 2}},
              "must_cover": ["paid"], "max_witness_replays": 2},
         ],
-        "bounds": {"quick": "as C05 for transaction blocks; valid multi-transaction batches (2 transactions; transfer-conversion-transfer) as C03; SnapshotPayouts as C14(a)", "thorough": "as C05/C03/C14"},
+        "bounds": {"quick": "as C05 for transaction blocks; valid multi-transaction batches (2 transactions; transfer-conversion-transfer) as C03; multiFetch over a full entry block (48 entries; 150 thorough) must terminate; SnapshotPayouts as C14(a)", "thorough": "as C05/C03/C14"},
         "assumptions": TXBLOCK_ASSUMPTIONS + ["panics inside dependency parsers/graders are outside (DESIGN §9)"],
     },
     "C07": {
